@@ -187,6 +187,23 @@ def sync_tree(root, sub, files):
     write_files(base, files)
 
 
+def dev_paths(cwd, pkgs=("app", "lib")):
+    """Fast path for develop mode: workspace paths are dev/<kind>/<pkg>/<n>/workspace. Returns the same
+    structure as query_paths, or None if some package has more than one numbered directory of a kind
+    (then only `bob query-path` knows which one is current)."""
+    import glob
+    res = {}
+    for pkg in pkgs:
+        for kind in ("src", "build", "dist"):
+            ds = sorted(glob.glob(os.path.join(cwd, "dev", kind, pkg, "*", "workspace")))
+            if len(ds) > 1:
+                return None
+            if ds:
+                name = "app" if pkg == "app" else "app/" + pkg
+                res.setdefault(name, {})[kind] = os.path.relpath(ds[0], cwd)
+    return res
+
+
 def query_paths(cwd, target, release=False, defines=()):
     """package name -> {src, build, dist} workspace paths (only those that exist) of target and
     everything below it. `bob query-path` shows a package only if ALL requested directories exist,
